@@ -57,6 +57,22 @@ def _tree_text(t, gmap, top=True):
     return s if top else "(" + s + ")"
 
 
+# identifiers.org-style annotation values behind the abstract tokens 1..5: single identifiers and
+# lists of identifiers of one provider (one identifier a substring of an earlier one, dots)
+ANNVAL = {1: "1", 2: "2", 3: ["1.1.1.27", "1.1.1.2"], 4: "4", 5: ["21765", "1765", "10108"]}
+
+
+def _ann_token(val):
+    if isinstance(val, str) and val.isdigit() and ANNVAL.get(int(val), val) == val:
+        return int(val)
+    if val == "0":
+        return 0
+    for k, v in ANNVAL.items():
+        if isinstance(v, list) and isinstance(val, (list, tuple)) and list(val) == v:
+            return k
+    raise ValueError("annotation value %r is none of the tokens" % (val,))
+
+
 class ModelDriver:
     def __init__(self, palette):
         import cobra
@@ -569,13 +585,14 @@ class ModelDriver:
             else:
                 o = self.get_gene(model, x)
             via = op.get("via", 0)
+            val = copy.deepcopy(ANNVAL.get(op["v"], str(op["v"])))
             if via == 0:
-                o.annotation["tok"] = str(op["v"])
+                o.annotation["tok"] = val
             elif via == 1:
-                o.annotation = dict(o.annotation, tok=str(op["v"]))
+                o.annotation = dict(o.annotation, tok=val)
             else:
                 o.notes["tok"] = str(op["v"])
-                o.annotation["tok"] = str(op["v"])
+                o.annotation["tok"] = val
             return None
         if a == "RoundTrip":
             from . import model_io
@@ -700,7 +717,7 @@ class ModelDriver:
                 if conc[x] in lst:
                     ob = lst.get_by_id(conc[x])
                     try:
-                        ann[x] = int(ob.annotation.get("tok", "0"))
+                        ann[x] = _ann_token(ob.annotation.get("tok", "0"))
                         note[x] = int(ob.notes.get("tok", "0"))
                     except (TypeError, ValueError):
                         inexact.append("ann:%s:bad" % x)
@@ -731,7 +748,7 @@ class ModelDriver:
             ann[g] = 0
             note[g] = 0
         try:
-            ann["MODEL"] = int(model.annotation.get("tok", "0"))
+            ann["MODEL"] = _ann_token(model.annotation.get("tok", "0"))
             note["MODEL"] = int(model.notes.get("tok", "0"))
         except (TypeError, ValueError, AttributeError):
             ann["MODEL"] = note["MODEL"] = 0
